@@ -107,9 +107,24 @@ func sImp(a, b string) string {
 	return app("=>", a, b)
 }
 
+func isNumLit(s string) bool {
+	if s == "" {
+		return false
+	}
+	for _, c := range s {
+		if c < '0' || c > '9' {
+			return false
+		}
+	}
+	return true
+}
+
 func sEq(a, b string) string {
 	if a == b {
 		return "true"
+	}
+	if isNumLit(a) && isNumLit(b) {
+		return "false"
 	}
 	return app("=", a, b)
 }
